@@ -139,14 +139,43 @@ def writeDotPieces (pieces : List (List UInt8)) (script : List Serial.Ev) : Bool
   let r := Serial.writePieces script pieces
   (r.1, r.2.1)
 
-/-- the same with the whole text as one piece: what the driver replays. It has the same `Ok`/`Err` outcome as
-    every division into pieces whenever the script has no fault (theorem `dot_write_chunking_irrelevant`) or its
-    first fault comes before the gives can have covered the text (the scripts the harness generates). -/
+/-- how `format_args!` cuts one `writeln!` into the pieces that `write_fmt` hands to `write_all`: literal fragments
+    and `{}` arguments alternate, the line feed belongs to the last literal fragment (checked against the code by the
+    `C20.pieces` stream of the harness and by `Lemmas/AlgoEq3Dot*.lean` against the translated function). An empty
+    piece (the empty name) causes no `write` call. -/
+def stmtPieces : Stmt → List (List Char)
+  | .header => [tHeader ++ ['\n']]
+  | .initNode => [tInitNode ++ ['\n']]
+  | .initEdge p => [tInitEdge, digits p, [';', '\n']]
+  | .terminal b => [digits (boolNat b) ++ (tTermA ++ (digits (boolNat b) ++ tTermB)) ++ ['\n']]
+  | .vertex p l => [digits p, tLabelA, l.toList, tLabelB ++ ['\n']]
+  | .edge p q s => [digits p, tArrow, digits q, styleText s ++ ['\n']]
+  | .footer => [tFooter ++ ['\n']]
+
+/-- the `write_all` pieces of a sequence of statements, as bytes -/
+def piecesOf (ss : List Stmt) : List (List UInt8) :=
+  (ss.flatMap stmtPieces).map fun cs => textBytes (String.ofList cs)
+
+/-- the decision nodes whose variable has a name, up to the first one that has none -/
+def namedPrefix (A : Arr) (names : List String) : List Nat :=
+  (innerPtrs A).takeWhile fun p => decide ((nodeAt A p).var < names.length)
+
+/-- `write_as_dot_string(output, …)` = `write_bdd_as_dot` with a scripted sink, in the order of the code:
+    the two entry checks (panics before anything is written); then one `write_all(..)?` per piece — a sink error is
+    returned at once; the name of a node's variable is looked up when the loop reaches that node, so
+    `var_names[var]` out of bounds panics only after everything before that node has been written successfully.
+    Result: `Ok`?, the bytes that reached the sink. -/
 def writeDotIO (A : Arr) (names : List String) (pruned : Bool) (script : List Serial.Ev) :
     Outcome (Bool × List UInt8) :=
-  (toDotString A names pruned).map fun t =>
-    let r := Serial.writeAll script (textBytes t)
-    (r.1, r.2.1)
+  if A.size = 0 then .panic "index out of bounds: the node vector is empty"
+  else if names.length ≠ numVars A then .panic "Bdd is incompatible with the variable set"
+  else
+    let good := namedPrefix A names
+    if good.length = (innerPtrs A).length then
+      .ok (writeDotPieces (piecesOf (stmtsOf A names pruned)) script)
+    else
+      let r := writeDotPieces (piecesOf (preamble A pruned ++ good.flatMap (nodeStmts A names pruned))) script
+      if r.1 then .panic "index out of bounds: var_names[var]" else .ok r
 
 /-! ### reading the text back -/
 
